@@ -250,6 +250,8 @@ def check_df_wrapper(ctx, fname, callee, rule, extra_args=(), shift=False):
             def call(I_, f, args, kwargs, st, node, calls=calls):
                 if f.key == f"{DSP}::{callee}":
                     m = Marker("worked", data=args[0], args=list(args[1:]), kw=dict(kwargs)); calls.append(m)
+                    # a slice of the worker's output (one column of a block result) remembers where it came from
+                    m.hook = lambda kind, o, key_, v_, st_: (Marker("sliced", of=o, idx=key_) if kind == "getitem" else NotImplemented)
                     return m
                 return NotImplemented
             I.hooks["call"] = call
@@ -326,6 +328,25 @@ def check_df_wrapper(ctx, fname, callee, rule, extra_args=(), shift=False):
                     if isinstance(v, Marker) and v.kind == "converted":
                         bad = bad or (f"column {keys[0]!r} receives the worker's output after .{v.info['how']}(...): converted before it is stored (a cast to the column's own dtype "
                                       "truncates the result for integer columns)"); continue
+                    if isinstance(v, Marker) and v.kind == "sliced" and isinstance(v.info.get("of"), Marker) and v.info["of"].kind == "worked":
+                        # the worker was applied once to a block of several columns: every reduction it takes without an axis then runs over all columns
+                        wfn = repo.get(f"{DSP}::{callee}")
+                        p0 = wfn.args.args[0].arg if wfn.args.args else None
+                        glob_red = None
+                        for c_ in ast.walk(wfn):
+                            if isinstance(c_, ast.Call):
+                                nm_ = ast.unparse(c_.func)
+                                tgt_ = None
+                                if nm_.split(".")[-1] in ("mean", "sum", "median", "average", "std", "var", "min", "max") and not any(k_.arg in ("axis",) for k_ in c_.keywords):
+                                    if isinstance(c_.func, ast.Attribute) and isinstance(c_.func.value, ast.Name) and c_.func.value.id == p0 and len(c_.args) == 0: tgt_ = p0
+                                    elif c_.args and isinstance(c_.args[0], ast.Name) and c_.args[0].id == p0 and len(c_.args) == 1: tgt_ = p0
+                                if tgt_: glob_red = glob_red or c_
+                        if glob_red is not None:
+                            bad = bad or (f"{callee} is applied once to a block holding all selected columns, but it computes {' '.join(ast.unparse(glob_red).split())[:40]} without an axis: "
+                                          f"for several columns that is the statistic of the whole block, not of column {col!r} (order 0 subtracts the grand mean)")
+                        else:
+                            unk = unk or f"{callee} is applied to a block of columns at once: its per-column behaviour for 2-D input is not analysed"
+                        continue
                     if not (isinstance(v, Marker) and v.kind == "worked"):
                         if is_opaque(v): unk = unk or f"column {keys[0]!r} receives {v!r}"; continue
                         bad = bad or f"column {keys[0]!r} receives {v!r}: the worker's output is converted or replaced before it is stored"; continue
@@ -338,7 +359,7 @@ def check_df_wrapper(ctx, fname, callee, rule, extra_args=(), shift=False):
                             bad = bad or f"column {col!r} is shifted by {v.info['args'][0] if v.info['args'] else None!r} samples, not by seconds*fs"; continue
                 extra = [k for k in sets if not any((k == cl if inplace else str(k).startswith(cl)) for cl in want_cols)]
                 if bad is None and extra: bad = f"columns {extra} are written although they were not selected / are not numeric"
-                if bad is None and unk is None and len(calls) != len(want_cols): bad = f"worker applied {len(calls)} times for {len(want_cols)} selected numeric columns"
+                if bad is None and unk is None and len(calls) != len(want_cols) and not any(isinstance(v_, Marker) and v_.kind == "sliced" for v_ in sets.values()): bad = f"worker applied {len(calls)} times for {len(want_cols)} selected numeric columns"
                 if bad is None and unk is not None: return UNKNOWN, unk, ""
                 return (HOLDS if bad is None else VIOLATED), (f"{callee} applied to each of {want_cols} on a copy" if bad is None else bad), ""
             verdicts = [judge(l) for l in leaves]
